@@ -28,7 +28,7 @@ CLAMP = DT + 1
 ADVANCES = (1, 2, 7)  # <= retry_timeout, > retry_timeout, > dead_timeout
 RULE = (
     "BFS over HashClient histories (events: op on a key owned by server i; advance 1/2/7 with retry_timeout=1, "
-    "dead_timeout=6; server i starts failing [refused/reset, thorough also timeout] or recovers); state = history "
+    "dead_timeout=6; server i starts failing or recovers; failure kind refused/reset/unreachable [thorough also timeout] is a configuration); state = history "
     "replayed on fresh objects; canonical = rotation, per-server failing mode + failover bookkeeping ages + monitor "
     "contact ages (all clamped at dead_timeout+1); every transition runs the real code; distinct_nontrivial = "
     "canonical states in which some server is failing, failed or dead"
@@ -36,11 +36,13 @@ RULE = (
 
 
 def configs(tier):
+    modes = ["refused", "reset", "unreach"] + (["timeout"] if tier != "quick" else [])
     out = []
     for n in (2, 3):
         for ra in (0, 1, 2):
             for ie in (False, True):
-                out.append((n, ra, ie))
+                for mode in modes:
+                    out.append((n, ra, ie, mode))
     return out
 
 
@@ -66,7 +68,6 @@ def owned_keys(n):
 def event_menu(n, tier):
     # get/set/delete share one code path (_run_cmd); get_many and set_many have their own
     ops = ["get", "get_many", "set_many"] + (["set", "delete"] if tier != "quick" else [])
-    modes = ["refused", "reset"] + (["timeout"] if tier != "quick" else [])
     ev = []
     for i in range(n):
         for o in ops:
@@ -74,15 +75,15 @@ def event_menu(n, tier):
     for d in ADVANCES:
         ev.append(("adv", d))
     for i in range(n):
-        for m in modes:
-            ev.append(("fail", i, m))
+        ev.append(("fail", i))
         ev.append(("heal", i))
     return ev
 
 
 class World:
     def __init__(self, cfg):
-        n, ra, ie = cfg
+        n, ra, ie, mode = cfg
+        self.mode = mode
         self.cfg = cfg
         self.n = n
         self.srvs = servers(n)
@@ -135,7 +136,7 @@ class World:
             a = self.addr[ev[1]]
             if a not in net.failing:
                 self.contacts[a] = []  # windows "throughout which the server was failing" start now
-            net.failing[a] = ev[2]
+            net.failing[a] = self.mode
             self.ever_failed.add(ev[1])
             # an established connection to a failing server is gone too
             for s in net.socks:
@@ -154,7 +155,7 @@ class World:
 
     def op(self, name, i):
         hc, net = self.hc, self.net
-        n, ra, ie = self.cfg
+        n, ra, ie, mode = self.cfg
         self.ncall += 1
         net.call = self.ncall
         k1, k2 = self.keys[i]
@@ -248,25 +249,29 @@ class World:
                                 f"{target}, but no server was contacted (result {res!r})"))
         return bad
 
-    def recovery_check(self):
-        """Suffix: all healthy, then two dead_timeout periods each with one operation per server."""
+    def recovery_check(self, steady):
+        """Suffix: all servers healthy, then two dead_timeout periods of traffic - either (steady=False)
+        two long pauses each followed by one operation per server, or (steady=True) one operation per
+        server every second.  Afterwards rotation and placement must be the original ones."""
         net, hc = self.net, self.hc
         for a in list(net.failing):
             net.failing.pop(a)
-        errs = []
-        for period in range(2):
-            net.clock.advance(DT + 1)
+        steps = [DT + 1] * 2 if not steady else [1] * (2 * DT + 2)
+        for dt in steps:
+            net.clock.advance(dt)
             for i in range(self.n):
                 self.ncall += 1
                 net.call = self.ncall
                 try:
                     hc.get(self.keys[i][0])
-                except Exception as e:
-                    errs.append(e)
+                except Exception:
+                    pass
         rot = sorted(map(str, hc.hasher.nodes))
         bad = []
+        how = "one operation per server every second" if steady else "two pauses, each followed by one operation per server"
         if rot != sorted(self.names):
-            bad.append(("no-recovery", f"after all servers recovered and two dead_timeout periods of traffic the rotation "
+            bad.append(("no-recovery" + ("-under-steady-traffic" if steady else ""),
+                        f"after all servers recovered and two dead_timeout periods of traffic ({how}) the rotation "
                         f"is {rot}, not {sorted(self.names)}"))
         else:
             for i in range(self.n):
@@ -279,7 +284,7 @@ class World:
                     r = e
                 t = {net.socks[e[3]].addr for e in net.events[ev0:] if e[2] in ("connect", "sendall") and e[3] >= 0}
                 if t != {self.addr[i]} or r != b"v":
-                    bad.append(("placement-not-restored", f"after recovery a get on {self.names[i]}'s key contacted {t} "
+                    bad.append(("placement-not-restored", f"after recovery ({how}) a get on {self.names[i]}'s key contacted {t} "
                                 f"and returned {r!r}"))
         return bad
 
@@ -293,7 +298,7 @@ def build(cfg, menu, hist):
 
 def _worker(job, chk):
     cfg, tier = job
-    n, ra, ie = cfg
+    n, ra, ie, mode = cfg
     menu = event_menu(n, tier)
     max_depth = (5 if n == 3 else 7) if tier == "quick" else (7 if n == 3 else 9)
     w0 = World(cfg)
@@ -316,8 +321,8 @@ def _worker(job, chk):
             chk.add()
             for clause, text in bad:
                 opname = ev[1] if ev[0] == "op" else ev[0]
-                sig = f"{clause}|{opname}|ignore_exc={ie}|retry_attempts={ra}"
-                chk.violation(sig, text + f" [servers={n} retry_attempts={ra} ignore_exc={ie}; history "
+                sig = f"{clause}|{opname}|ignore_exc={ie}|retry_attempts={ra}|{mode}"
+                chk.violation(sig, text + f" [servers={n} retry_attempts={ra} ignore_exc={ie} failure={mode}; history "
                               f"{[menu[e] for e in hist] + [ev]}]",
                               {"cfg": list(cfg), "tier": tier, "history": list(hist) + [ei], "recovery": False})
             k = w.canon()
@@ -327,10 +332,11 @@ def _worker(job, chk):
                 if w.troubled():
                     troubled += 1
                     chk.outcome((cfg, k))
-                # recovery from every reachable state (on the same world: it is not used again)
-                for clause, text in w.recovery_check():
-                    sig = f"{clause}|ignore_exc={ie}|retry_attempts={ra}"
-                    chk.violation(sig, text + f" [servers={n} retry_attempts={ra} ignore_exc={ie}; history "
+                # recovery from every reachable state, under two traffic patterns
+                rec = w.recovery_check(False) + build(cfg, menu, hist + (ei,)).recovery_check(True)
+                for clause, text in rec:
+                    sig = f"{clause}|ignore_exc={ie}|retry_attempts={ra}|{mode}"
+                    chk.violation(sig, text + f" [servers={n} retry_attempts={ra} ignore_exc={ie} failure={mode}; history "
                                   f"{[menu[e] for e in hist] + [ev]}]",
                                   {"cfg": list(cfg), "tier": tier, "history": list(hist) + [ei], "recovery": True})
                 chk.count("recovery_suffixes_run")
@@ -340,7 +346,7 @@ def _worker(job, chk):
     chk.maximum("max_depth", depth_reached)
     if hit_cap:
         chk.cap(f"depth cap {max_depth} hit for servers={n} retry_attempts={ra} ignore_exc={ie}")
-    if cfg == (2, 1, False):
+    if cfg == (2, 1, False, "refused"):
         longest = max(seen.values(), key=len)
         chk.sample({"config": {"servers": n, "retry_attempts": ra, "ignore_exc": ie, "retry_timeout": RT, "dead_timeout": DT},
                     "history": [list(menu[e]) for e in longest], "canonical_state": repr(build(cfg, menu, longest).canon())})
@@ -364,5 +370,5 @@ def replay(detail):
         print("   ", menu[e])
     print("    state:", w.canon())
     if detail.get("recovery"):
-        bad = w.recovery_check()
+        bad = w.recovery_check(False) + build(cfg, menu, hist).recovery_check(True)
     return [t for c, t in bad]
